@@ -12,7 +12,9 @@ CHECKS = {
         "Generated and shipped scenarios are wrapped in PrimaiteGymEnv and driven with generated sequences of steps over the "
         "whole action space (ignoring the mask, incl. missing/powered-off targets), seeded and unseeded resets and up to 3 "
         "steps past truncation; after every call the 5-tuple contract, tick count, per-agent history length/timestep/"
-        "status, info['agent_actions'] and the post-reset zero state are asserted; any exception is a violation. "
+        "status, info['agent_actions'] and the post-reset zero state are asserted; any exception is a violation. 'Long' "
+        "cases put 26-45 consecutive idle steps after a prefix biased to logins (inactivity time-outs, scheduled "
+        "attackers); episode-scheduled folders are driven past one lap of their schedule. "
         "Exploration: sampled scenarios and histories.",
         "Scenario families are LAN/ROUTED/DMZ with <=6 hosts; shipped files with exactly one proxy agent; malformed "
         "shipped files are deny-listed with reasons in vlib/envdrive.py.",
@@ -39,7 +41,11 @@ CHECKS = {
         "PYTHONHASHSEED, in the harness-owned entropy (uuid4, MAC/ICMP identifier bits, payload tokens), in the clock "
         "(origin, whole-second stamps) and in logging (all on at DEBUG vs off); per-step digests of observation, reward and "
         "every agent's action/parameters/status/response data must be identical, and within a run the two episodes started "
-        "by reset(seed=s) must be identical. Exploration over sampled seeds and hash seeds.",
+        "by reset(seed=s) must be identical; the action mask of a masking-enabled agent is part of the digest and one variant "
+        "runs its batch of cases in reverse order (process history). Frame-size sub-check: scenarios whose links carry a few "
+        "frames per step under variants that differ in exactly one source of opaque values (clock origin/step, identifier "
+        "digits, whole-second stamps); the clock-only variant must agree down to the normalised simulation state. "
+        "Exploration over sampled seeds and hash seeds.",
         "Only what the property lists (observations, rewards, histories) is compared, after replacing uuids/MACs/timestamps "
         "by first-appearance labels; hash seeds are 3 (quick) / 5 (thorough) fixed values.",
     ),
@@ -51,7 +57,12 @@ CHECKS = {
         "be reachable from the new one; (b) a newly constructed environment is compared with the same configuration after "
         "reset(seed=s) (power states, first observation, trajectory); (c) instance X's trajectory alone is compared with "
         "X interleaved with construct/step/reset/close calls on an instance Y with different options, the shared global "
-        "RNGs and harness entropy being saved/restored around Y's calls. Exploration.",
+        "RNGs and harness entropy being saved/restored around Y's calls; (d) reset vs construction with the constructed "
+        "environment being the first of a fresh interpreter; (e) episode k of a used episode-scheduled folder vs a fresh "
+        "environment built from episode k's composed scenario; (f) the same (scenario, reset(seed), actions) in a pristine "
+        "child interpreter vs in the worker process after another environment with different process-wide options was "
+        "built and used. Action masks are part of every compared trajectory; reset seed 0 gets a fifth of the draws. "
+        "Exploration.",
         "Global Python/NumPy RNG sharing is by design and equalised by the harness; entropy is restarted at the same "
         "logical point in both runs of each differential.",
     ),
@@ -63,7 +74,11 @@ CHECKS = {
         "through Simulation.apply_request; the tracer classifies the return point (key-miss / validator refusal / leaf); "
         "the oracle requires a documented status and no exception, unreachable for key-miss, failure+reason for a "
         "validator refusal, an unchanged normalised describe_state() for everything stopped before a leaf, and no "
-        "key-miss for action requests whose parameters name existing components. Exploration.",
+        "key-miss for action requests whose parameters name existing components. Every rule on a probe's path is also judged "
+        "from the raw state of the component it guards (reqtrace.truth_run): a rule that is not satisfied must stop the "
+        "request; an action's request must name the node its parameters name; actions naming components that do not exist "
+        "are never answered success. States include software uninstalled, declared-OFF nodes powered on, a folder with "
+        "files deleted. Exploration.",
         "describe_state() is taken as the observable state; leaf argument arity is kept valid (unknown leaf templates are "
         "counted, not reported); validators are evaluated a second time by the tracer and assumed pure.",
     ),
@@ -74,9 +89,12 @@ CHECKS = {
         "formed request over the live request tree (all keys exist and every validator on the path accepts, evaluated "
         "without check_valid); for the executed action the mask taken at the moment the request is applied is compared "
         "with the traced return point and the response status (masked => not success; allowed => not stopped by a "
-        "key-miss or validator). Exploration.",
-        "Validator objects are the definition of 'permission rule' (a mutant that weakens a validator itself is C12/C13's "
-        "business); blue's mask is re-read inside apply_agent_actions via a class-level wrapper.",
+        "key-miss or validator). A second walk judges every rule on the path from the raw state of the component it guards "
+        "(power state, service/application operating_state vs the rule's target, interface enabled flag, live file/folder "
+        "sets) without calling any validator; the mask must agree with that verdict too. Exploration.",
+        "The 13 permission-rule classes of the repository have a raw-state reference; a rule class without one falls back "
+        "to the validator and is listed in the evidence; blue's mask is re-read inside apply_agent_actions via a "
+        "class-level wrapper.",
     ),
     "C15": (
         "stateful PBT: generated file-system request/action sequences vs structural invariants + name model; "
@@ -84,7 +102,9 @@ CHECKS = {
         "Generated operation sequences (Hypothesis, depth <= 40) and every sequence to depth 3 (quick) / 4 (thorough) over a "
         "14-symbol alphabet are applied to a real host's file system through the request tree and the agent actions' "
         "form_request; after every operation the live/deleted partition, name uniqueness, describe_state agreement and "
-        "tick-start counters are asserted and unambiguous effects are compared with a name model. Exploration: it "
+        "tick-start counters are asserted and unambiguous effects are compared with a name model; every file/folder object "
+        "ever seen must stay in exactly one of its container's two sets, a live file is available to actions and nothing "
+        "addressed into a non-live folder succeeds. Exploration: it "
         "refutes, it cannot show absence beyond the enumerated depth.",
         "Trusts Hypothesis generation and the harness's reading of Folder.files/deleted_files; names are drawn from a "
         "pool of 3 folders x 3 files; one host.",
